@@ -6,12 +6,18 @@ which elements each operand presents, how a two-finger merge (possibly of lazily
 leader-follower intersection consumes them, which coordinates the populate offers, which of them already
 existed in the destination and at which raw index, and which were kept.  Library log: the CSV files written under the collection prefix / the consumed in-memory traces.
 The checker validates header, stamp ordering, and matches rows to ground-truth events one-to-one in
-order; every kernel is run with flush thresholds 2, 3, 7, 1000 and once with consumable traces and all
-five row sequences must be identical.
+order; every kernel is run with flush thresholds 2, 3, 7, 1000, with consumable traces (consumed at the end,
+piecewise, or after a refused endCollect()) and with the on-disk and in-memory forms mixed per trace - all row
+sequences must be identical - and with two complementary subsets of the traces requested, each judged
+against the ground truth of its own run.
 """
+import collections
+import json
 import os
+import random
 import shutil
 import tempfile
+import zlib
 
 from fibertree import Fiber, Payload, Tensor
 from fibertree.core.metrics import Metrics
@@ -29,20 +35,31 @@ SPEC = {
              "populate_i, populate_read_i, populate_write_i); or a hand-written two-level nest whose outer loop is sparse or a "
              "dense by-reference walk of the output (iterShapeRef / iterActiveShapeRef / iterRangeShapeRef) and whose inner operand "
              "expression (1-3 operands, every nesting of `&` / Fiber.intersection / leader-follower) is built inside or ahead of "
-             "the collection; plus 1-D projection (convolution-like) kernels with project_i traces.  Non-trivial "
+             "the collection; plus 1-D projection (convolution-like) kernels with project_i traces, and projections in the innermost "
+             "loop of a nest of depth 2-3 (a new projected fiber per iteration of the enclosing loops).  Configurations of the "
+             "collection per kernel / nest: flush thresholds 2, 3, 7, 1000; every trace on disk, in memory, or both (form drawn per "
+             "trace); in-memory forms consumed once after the nest, piecewise at every iteration of the outermost loop, or only "
+             "after endCollect() has refused to drop them (the collection is then ended again); all traces requested, or a random "
+             "subset of the (rank, type) pairs and its complement, each judged against the ground truth of its own run.  Non-trivial "
              "= at least 2 trace files with at least 2 data rows each; distinct = distinct case."),
     "shards": {"quick": 16, "thorough": 16},
     "min_counts": {"quick": {"evaluations": 100, "files_checked": 600, "rows_matched": 1500, "flush_variants_compared": 300,
                              "inserting_visits": 20, "noninserting_visits": 300, "project_rows": 30, "startpos_traces": 30, "bounded_nests": 30,
                              "projections_with_start_pos": 60, "stale_file_sessions": 30,
                              "nested_intersection_visits": 60, "leader_follower_visits": 50, "wide_coiteration_visits": 70,
-                             "dense_ref_outer_nests": 25, "prepared_ahead_nests": 20, "prepared_ahead_leader_follower_nests": 6}},
+                             "dense_ref_outer_nests": 25, "prepared_ahead_nests": 20, "prepared_ahead_leader_follower_nests": 6,
+                             "trace_subsets_judged": 200, "write_without_read_subsets": 5, "inserting_moves_judged": 60,
+                             "piecewise_consumed_collections": 100, "late_drained_collections": 100,
+                             "inner_loop_projection_nests": 30, "inner_loop_project_rows": 200}},
     "assumptions": [
         "label rule (which intersect_i / populate_i file belongs to which operand), derived from the library's behaviour on the unchanged tree: labels are handed out per loop rank in the order the operators start - a populate names its destination and source first, the outermost intersection names its operands next, an intersection nested inside one of its operands names its own when it is first pulled (left operand before right); a leader-follower intersection names leader then followers; integer coordinates",
         "an access in a two-finger intersection = an element of an operand that was compared and consumed, or the one left at the head of the unexhausted operand when the merge ends; a lazy operand is pulled on demand, so elements it never had to produce are not accesses",
         "a leader-follower intersection reads every leader element once and probes every follower once per leader element; a probe that finds the element is addressed by that element's index, a probe that finds nothing addresses no element and only its coordinate is judged; followers are compressed-format fibers",
         "an outer loop that walks the output densely by reference publishes its coordinate to the traces of the inner ranks; its own iter trace is not judged (next assumption)",
-        "destination-side traces of an inserting populate (first source coordinate below the destination's maximum, compressed destination) are only required to be stamp-ordered and complete",
+        "destination-side traces of an inserting populate (first source coordinate below the destination's maximum, compressed destination) are only required to be stamp-ordered and complete; complete = the write trace holds exactly one row per kept write plus one per moved element, the read trace at least one row per read of an element that was already there plus one per moved element (the reads of the search for the insertion place are not modelled); moved elements = the non-empty elements from the first inserted one to the end of the fiber as it is when the populate ends",
+        "which traces are requested does not change which accesses a requested trace must hold; it may change the stamps (only their order is judged in a subset configuration).",
+        "endCollect() refuses (AssertionError) to end a collection whose in-memory traces hold unconsumed rows; after the rows have been consumed a second endCollect() ends it, and the refused call must not have changed what the traces hold",
+        "a projected fiber consumed directly by the innermost loop (no populate / intersection on top of it, default tick): its source rank is matched to the loop rank, so the project_i header names the loop ranks; rows carry the source coordinate",
         "a loop level driven directly by the dense iterator of a single uncompressed operand emits no iter rows; its iter trace is not judged",
         "position of an element of a lazily produced fiber (a & b, z << a) is its ordinal in that lazy sequence; position in an uncompressed-format fiber is the offset in its active range",
     ],
@@ -122,6 +139,12 @@ def generate(rng, tier, shard, nshards, mon):
                 if len(idx) >= 1 and rng.random() < 0.7:
                     dirty[name] = rng.randrange(1 << 16)
         yield {"kind": "kernel", "spec": spec, "dirty": dirty, "nested_and": nested_and}
+    # projections in the innermost loop of a nest of depth 2-3 (a new projected fiber per iteration of the enclosing loops)
+    for i in range(max(2, n // 8)):
+        ext = [rng.randint(2, 4)] + ([rng.randint(1, 3)] if rng.random() < 0.35 else []) + [rng.randint(2, 8)]
+        lo = rng.randint(0, 4)
+        yield {"kind": "project2", "ext": ext, "a": gen.rand_tree_spec(rng, ext, rng.choice([0.6, 0.8, 1.0]), rng.choice([0.0, 0.0, 0.0, 0.3]), 0),
+               "shift": rng.randint(0, 3), "interval": rng.choice([None, None, [lo, lo + rng.randint(1, 8)]])}
 
 
 EXPRS = {1: [0],
@@ -216,6 +239,7 @@ class _GT(kernels.Observer):
         self.stack = []
         self.dense_driven = set()
         self.stats = {"nested": 0, "lf": 0, "wide": 0}
+        self.tap = None         # called at the start of every iteration of the outermost loop (streaming consumer)
 
     def _visit(self, R, tt, prefix, **kw):
         v = {"prefix": tuple(prefix), "rows": [], "inserting": False}
@@ -305,6 +329,7 @@ class _GT(kernels.Observer):
             fr["read"] = self._visit(R, "populate_read_0", point, inserting=inserting)
             fr["write"] = self._visit(R, "populate_write_0", point, inserting=inserting)
             fr["snapshot"] = list(z.coords)
+            fr["pre"] = list(z.coords)
             fr["inserting"] = inserting
         self.stack.append(fr)
 
@@ -318,6 +343,8 @@ class _GT(kernels.Observer):
 
     def body(self, d, var, c, point):
         fr = self.stack[-1]
+        if self.tap is not None and len(self.stack) == 1:
+            self.tap()
         if fr.get("dense"):
             return
         self._finalize_prev(fr)
@@ -339,6 +366,16 @@ class _GT(kernels.Observer):
     def level_end(self, d, var, point):
         fr = self.stack.pop()
         self._finalize_prev(fr)
+        if fr["is_out"] and fr["inserting"]:
+            # an insertion is modelled as a write to a staging area followed, when the populate ends, by one move
+            # (a read and a write) of every element from the first inserted one to the end of the fiber
+            z = fr["z"]
+            new = [c for c, _, _ in fr["write"]["rows"] if c not in fr["pre"]]
+            moved = []
+            if new:
+                p0 = z.coords.index(min(new))
+                moved = [c for c, p in zip(z.coords[p0:], z.payloads[p0:]) if not _is_empty(p)]
+            fr["write"]["moved"] = fr["read"]["moved"] = moved
 
 
 # ------------------------------------------------------------------------------------------
@@ -460,50 +497,85 @@ def _prep_nest2(case):
     return gt, ["M", "K"], run
 
 
-def _run(case, prefix, ncu, consumable):
+FORMS = ["file", "mem", "file-then-mem", "mem-then-file"]
+
+
+def _cfg_seed(case):
+    """A per-case seed for the trace configuration (which traces, which form, when consumed)."""
+    return zlib.crc32(json.dumps(case, sort_keys=True, default=str).encode())
+
+
+def _subset(ranks, seed):
+    """A random subset of the (rank, trace type) pairs and its complement: between them every pair of traces is
+    requested once together with and once without the other."""
+    r = random.Random(seed)
+    keys = [(R, tt) for R in ranks for tt in ALL_TYPES]
+    a = {k for k in keys if r.random() < 0.5}
+    out = []
+    for want in (a, set(keys) - a):
+        # (with populate_read_i requested WITHOUT populate_write_i the library did not record the reads of the moves that end
+        # an inserting populate until repository fix c54fa5e: key populate_read:inserting:incomplete)
+        out.append(want)
+    return out
+
+
+def _run(case, prefix, ncu, consumable, want=None, drain="end"):
+    """Run the case under a collection.  `consumable`: False (every trace on disk), True (in memory), "file-then-mem" /
+    "mem-then-file" (both forms, requested in that order) or ("mixed", seed) (form drawn per trace).  `want`: the
+    (rank, type) pairs to request (None = all).  `drain`: when the in-memory forms are consumed - "end" (once, after
+    the loop nest), "stream" (at every iteration of the outermost loop and after the nest) or "late" (only after
+    endCollect() has refused to drop the unconsumed rows; the collection is then ended again)."""
     gt, ranks, thunk = (_prep_nest2 if case["kind"] == "nest2" else _prep_kernel)(case)
+    keys = [(r, tt) for r in ranks for tt in ALL_TYPES if want is None or (r, tt) in want]
+    if isinstance(consumable, tuple):
+        rr = random.Random(consumable[1])
+        form = {k: rr.choice(FORMS) for k in keys}
+    else:
+        form = {k: {False: "file", True: "mem"}.get(consumable, consumable) for k in keys}
     Metrics.setNumCachedUses(ncu)
     Metrics.beginCollect(prefix)
-    for r in ranks:
-        for tt in ALL_TYPES:
-            if consumable == "file-then-mem":       # the same trace requested on disk first, then in memory
-                Metrics.trace(r, type_=tt)
-                Metrics.trace(r, type_=tt, consumable=True)
-            elif consumable == "mem-then-file":
-                Metrics.trace(r, type_=tt, consumable=True)
-                Metrics.trace(r, type_=tt)
-            else:
-                Metrics.trace(r, type_=tt, consumable=consumable)
+    for r, tt in keys:
+        for f in {"file": [False], "mem": [True], "file-then-mem": [False, True], "mem-then-file": [True, False]}[form[(r, tt)]]:
+            Metrics.trace(r, type_=tt, consumable=f)
+    memkeys = [k for k in keys if form[k] != "file"]
+    mem = {k: [] for k in memkeys}
+
+    def consume():
+        for r, tt in memkeys:
+            mem[(r, tt)].extend([str(x) for x in row] for row in Metrics.consumeTrace(r, tt))
+    if drain == "stream":
+        gt.tap = consume
     thunk()
+    gt.tap = None
+    gt.refused = None
+    if drain != "late":
+        consume()
+        Metrics.endCollect()
+    else:
+        try:
+            Metrics.endCollect()
+            gt.refused = False
+        except AssertionError:
+            # rows nobody consumed yet: read them, then end the collection
+            gt.refused = True
+            consume()
+            Metrics.endCollect()
     files = {}
-    mem = {}
-    if consumable:
-        for r in ranks:
-            for tt in ALL_TYPES:
-                rows = Metrics.consumeTrace(r, tt)
-                mem[(r, tt)] = [[str(x) for x in row] for row in rows]
-        files = mem
-    Metrics.endCollect()
-    if consumable in ("file-then-mem", "mem-then-file"):
-        files = {}
-        for r in ranks:
-            for tt in ALL_TYPES:
-                fn = f"{prefix}-{r}-{tt}.csv"
-                rows = None
-                if os.path.exists(fn):
-                    with open(fn) as fh:
-                        rows = [ln.rstrip("\n").split(",") for ln in fh if ln.strip() != ""]
-                # both forms must hold the same rows; report the in-memory form and flag a difference
-                files[(r, tt)] = rows if (rows or []) == (mem[(r, tt)] or []) else [["<file and memory differ>"]] + (rows or [])
-    if not consumable:
-        for r in ranks:
-            for tt in ALL_TYPES:
-                fn = f"{prefix}-{r}-{tt}.csv"
-                if os.path.exists(fn):
-                    with open(fn) as fh:
-                        files[(r, tt)] = [ln.rstrip("\n").split(",") for ln in fh if ln.strip() != ""]
-                else:
-                    files[(r, tt)] = None
+    for k in keys:
+        r, tt = k
+        rows = None
+        if form[k] != "mem":
+            fn = f"{prefix}-{r}-{tt}.csv"
+            if os.path.exists(fn):
+                with open(fn) as fh:
+                    rows = [ln.rstrip("\n").split(",") for ln in fh if ln.strip() != ""]
+        if form[k] == "file":
+            files[k] = rows
+        elif form[k] == "mem":
+            files[k] = mem[k]
+        else:
+            # both forms must hold the same rows; report the in-memory form and flag a difference
+            files[k] = rows if (rows or []) == (mem[k] or []) else [["<file and memory differ>"]] + (rows or [])
     return gt, files, ranks
 
 
@@ -520,6 +592,8 @@ def run_case(case, mon):
             _run_bounded(case, mon, os.path.join(tmp, "b"))
         elif case["kind"] == "stale":
             _run_stale(case, mon, os.path.join(tmp, "r"))
+        elif case["kind"] == "project2":
+            _run_project2(case, mon, os.path.join(tmp, "q"))
         else:       # "kernel", "nest2"
             _run_kernel(case, mon, os.path.join(tmp, "k"))
     finally:
@@ -551,11 +625,30 @@ def _run_kernel(case, mon, prefix):
             raise
         mon.violation(f"traced-kernel:raised:{type(e).__name__}", f"traced kernel {desc} raised {type(e).__name__}: {e}")
         return
+    big = _judge(gt, files, ranks, desc, mon, None)
+    _variants(case, prefix, files, ranks, desc, mon)
+    if big >= 2:
+        mon.nontrivial()
+    mon.count("nested_intersection_visits", gt.stats["nested"])
+    mon.count("leader_follower_visits", gt.stats["lf"])
+    mon.count("wide_coiteration_visits", gt.stats["wide"])
+    if case["kind"] == "nest2":
+        mon.count("dense_ref_outer_nests", int(case["outer"] != "sparse"))
+        mon.count("prepared_ahead_nests", int(bool(case["prepared"])))
+        mon.count("prepared_ahead_leader_follower_nests", int(bool(case["prepared"]) and _has_lf(case["expr"])))
+    mon.state(st + (big,))
+
+
+def _judge(gt, files, ranks, desc, mon, want):
+    """Judge the traces of one collection against the ground truth logged during that very run; `want` = the
+    (rank, type) pairs that were requested (None = all).  -> number of traces with at least 2 data rows."""
     big = 0
     for d, R in enumerate(ranks):
         header = [r + "_pos" for r in ranks[:d + 1]] + ranks[:d + 1] + ["fiber_pos"]
         nr = d + 1
         for tt in ALL_TYPES:
+            if want is not None and (R, tt) not in want:
+                continue
             visits = gt.exp.get((R, tt), [])
             rows = files.get((R, tt))
             n_expected = sum(len(v["rows"]) for v in visits)
@@ -625,11 +718,26 @@ def _run_kernel(case, mon, prefix):
                     gi += 1
                 if v["inserting"]:
                     mon.count("inserting_visits")
+                    # complete = one row per access: every kept write / every read of an element that was already
+                    # there, and the read and the write of every element moved to its place when the populate ends
+                    # (the positions - staging area or not - are not interpreted)
+                    have = collections.Counter(c for c, _ in (got or []))
+                    need = collections.Counter(c for c, _, _ in v["rows"]) + collections.Counter(v.get("moved", []))
+                    missing = sorted((need - have).elements())
                     if tt == "populate_write_0":
-                        have = [c for c, _ in (got or [])]
-                        missing = [c for c, _, _ in v["rows"] if c not in have]
-                        mon.check(not missing, "populate_write:inserting:incomplete",
-                                  f"trace {R}/{tt} visit {v['prefix']}: kept writes {missing} have no row; {desc}")
+                        if mon.check(not missing, "populate_write:inserting:incomplete",
+                                     f"trace {R}/{tt} visit {v['prefix']}: kept writes {[c for c, _, _ in v['rows']]} and moved elements "
+                                     f"{v.get('moved', [])} need a row each, rows address {sorted(have.elements())}: no row for {missing}; {desc}"):
+                            extra = sorted((have - need).elements())
+                            mon.check(not extra, "populate_write:inserting:extra-rows",
+                                      f"trace {R}/{tt} visit {v['prefix']}: rows {extra} beyond the kept writes {[c for c, _, _ in v['rows']]} "
+                                      f"and the moved elements {v.get('moved', [])}; {desc}")
+                        mon.count("inserting_moves_judged", len(v.get("moved", [])))
+                    elif tt == "populate_read_0":
+                        # (the reads made while searching for the place of an insertion are not modelled: no upper bound)
+                        mon.check(not missing, "populate_read:inserting:incomplete",
+                                  f"trace {R}/{tt} visit {v['prefix']}: reads of existing elements {[c for c, _, _ in v['rows']]} and of moved "
+                                  f"elements {v.get('moved', [])} need a row each, rows address {sorted(have.elements())}: no row for {missing}; {desc}")
                     continue
                 if not v["rows"]:
                     continue
@@ -655,36 +763,57 @@ def _run_kernel(case, mon, prefix):
             # groups left over belong to no expected visit (only tolerated for inserting destination traces)
             if extra and not any(v["inserting"] for v in visits):
                 mon.violation(f"{_tkind(tt)}:extra-rows", f"trace {R}/{tt}: {sum(len(g[1]) for g in extra)} rows belong to no traced access; {desc}")
-    # flush-threshold / consumable invariance
-    for ncu, cons in ((2, False), (3, False), (7, False), (1000, True), (3, "file-then-mem"), (1000, "mem-then-file")):
+    return big
+
+
+def _variants(case, prefix, files, ranks, desc, mon):
+    """The same kernel under other configurations of the collection."""
+    seed = _cfg_seed(case)
+    rr = random.Random(seed)
+    # flush-threshold / consumable invariance: all traces requested, so even the stamps must agree
+    for ncu, cons, drain in ((2, False, "end"), (3, False, "end"), (7, False, "end"), (1000, True, "end"), (3, "file-then-mem", "end"),
+                             (1000, "mem-then-file", "end"),
+                             # form drawn per trace; in-memory forms consumed piecewise while the nest runs, or only after
+                             # endCollect() has refused to drop them
+                             (rr.choice([2, 3, 5, 1000]), ("mixed", seed), "stream"), (rr.choice([2, 3, 5, 1000]), ("mixed", seed + 1), "late")):
         try:
-            _, f2, _ = _run(case, prefix, ncu, cons)
+            g2, f2, _ = _run(case, prefix, ncu, cons, drain=drain)
         except BaseException as e:      # noqa
             if isinstance(e, KeyboardInterrupt):
                 raise
             mon.violation(f"flush:raised:{type(e).__name__}:{'consumable' if cons else 'file'}",
-                          f"traced kernel raised {type(e).__name__}: {e} with num_cached_uses={ncu} consumable={cons}; {desc}")
+                          f"traced kernel raised {type(e).__name__}: {e} with num_cached_uses={ncu} consumable={cons} drain={drain}; {desc}")
             continue
         mon.count("flush_variants_compared")
+        if drain != "end":
+            mon.count("piecewise_consumed_collections" if drain == "stream" else "late_drained_collections", int(drain == "stream" or bool(g2.refused)))
         for key, rows in files.items():
             a = rows or []
             b = f2.get(key) or []
             if a != b:
-                mon.violation("flush:consumable-differs" if cons else "flush:threshold-changes-content",
-                              f"trace {key} differs with num_cached_uses={ncu} consumable={cons}: {len(b)} rows vs {len(a)}; {desc}")
+                k = ("flush:threshold-changes-content" if not cons else "flush:consumable-differs" if drain == "end" else
+                     "consume-piecewise:changes-content" if drain == "stream" else "consume-after-refused-end:changes-content")
+                mon.violation(k, f"trace {key} differs with num_cached_uses={ncu} consumable={cons} consumed={drain}: {len(b)} rows vs {len(a)}; {desc}")
                 break
         else:
             mon.count("oracle_evals")
-    if big >= 2:
-        mon.nontrivial()
-    mon.count("nested_intersection_visits", gt.stats["nested"])
-    mon.count("leader_follower_visits", gt.stats["lf"])
-    mon.count("wide_coiteration_visits", gt.stats["wide"])
-    if case["kind"] == "nest2":
-        mon.count("dense_ref_outer_nests", int(case["outer"] != "sparse"))
-        mon.count("prepared_ahead_nests", int(bool(case["prepared"])))
-        mon.count("prepared_ahead_leader_follower_nests", int(bool(case["prepared"]) and _has_lf(case["expr"])))
-    mon.state(st + (big,))
+    # any subset of the traces may be requested: each requested trace is judged against the ground truth of its own run
+    # (stamps depend on what else is traced and are only required to be ordered)
+    for want in _subset(ranks, seed):
+        if not want:
+            continue
+        ncu = rr.choice([2, 3, 1000])
+        try:
+            g3, f3, _ = _run(case, prefix, ncu, False, want=want)
+        except BaseException as e:      # noqa
+            if isinstance(e, KeyboardInterrupt):
+                raise
+            mon.violation(f"traced-kernel:raised:{type(e).__name__}", f"traced kernel raised {type(e).__name__}: {e} with traces {sorted(want)} requested; {desc}")
+            continue
+        mon.count("trace_subsets_judged")
+        mon.count("write_without_read_subsets", sum(1 for R in ranks if (R, "populate_write_0") in want and (R, "populate_read_0") not in want
+                                                    and any(v["inserting"] for v in g3.exp.get((R, "populate_write_0"), []))))
+        _judge(g3, f3, ranks, f"{desc}; traces requested: {sorted(want)}", mon, want)
 
 
 def _tkind(tt):
@@ -772,6 +901,130 @@ def _run_project(case, mon, prefix):
     if len(data) >= 2:
         mon.nontrivial()
     mon.state(("project", len(data)))
+
+
+def _run_project2(case, mon, prefix):
+    """for m: [for n:] for j in a_k.project(k -> k + shift, interval, rank_id="J"): a projected fiber is built anew in
+    every iteration of the enclosing loops; traces: iter of every loop rank, project_0 of the source rank K."""
+    ext = case["ext"]
+    outer = ["M", "N"][:len(ext) - 1]
+    s, iv = case["shift"], case["interval"]
+    loop = outer + ["J"]
+    keys = [(r, "iter") for r in loop] + [("K", "project_0")]
+
+    def walk(f, d, point, exp):
+        """ground truth from the raw lists"""
+        if d == len(outer):
+            k_ord = 0
+            ne = -1
+            for i, (k, p) in enumerate(zip(f.coords, f.payloads)):
+                if _is_empty(p):
+                    continue
+                ne += 1         # (ordinal among the non-empty elements: what the known finding reports instead of i)
+                j = k + s
+                if iv is not None and j >= iv[1]:
+                    break
+                if iv is None or j >= iv[0]:
+                    exp[("K", "project_0")].append((tuple(point) + (k,), i, ne))
+                    exp[("J", "iter")].append((tuple(point) + (j,), k_ord, k_ord))
+                    k_ord += 1
+            return
+        for i, (c, sub) in enumerate(zip(f.coords, f.payloads)):
+            if _is_empty(sub):
+                continue
+            exp[(outer[d], "iter")].append((tuple(point) + (c,), i, None))
+            walk(sub, d + 1, point + [c], exp)
+
+    def run(ncu, form, drain):
+        A = gen.tensor_from_spec(case["a"], outer + ["K"], shape=ext, default=0, name="A")
+        exp = {k: [] for k in keys}
+        walk(A.getRoot(), 0, [], exp)
+        mem = {k: [] for k in keys}
+
+        def consume():
+            if form == "mem":
+                for r, tt in keys:
+                    mem[(r, tt)].extend([str(x) for x in row] for row in Metrics.consumeTrace(r, tt))
+
+        def nest(f, d):
+            if d == len(outer):
+                for j, v in f.project(trans_fn=lambda k: k + s, interval=tuple(iv) if iv else None, rank_id="J"):
+                    pass
+                return
+            for c, sub in f:
+                if drain == "stream" and d == 0:
+                    consume()
+                nest(sub, d + 1)
+        Metrics.setNumCachedUses(ncu)
+        Metrics.beginCollect(prefix)
+        for r, tt in keys:
+            Metrics.trace(r, type_=tt, consumable=(form == "mem"))
+        nest(A.getRoot(), 0)
+        consume()
+        Metrics.endCollect()
+        if form == "mem":
+            return exp, mem
+        return exp, {(r, tt): _read_csv(f"{prefix}-{r}-{tt}.csv") or [] for r, tt in keys}
+
+    out = {}
+    for ncu, form, drain in ((1000, "file", "end"), (2, "file", "end"), (3, "file", "end"), (7, "file", "end"), (1000, "mem", "end"), (1000, "mem", "stream")):
+        try:
+            exp, out[(ncu, form, drain)] = run(ncu, form, drain)
+        except BaseException as e:      # noqa
+            if isinstance(e, KeyboardInterrupt):
+                raise
+            mon.violation(f"project:inner-loop:raised:{type(e).__name__}", f"projection in the inner loop of a nest raised {type(e).__name__}: {e}; {case}")
+            return
+    base = out[(1000, "file", "end")]
+    mon.count("inner_loop_projection_nests")
+    big = 0
+    for d, R in enumerate(loop + ["K"]):
+        tt = "iter" if R != "K" else "project_0"
+        kind = "iter" if R != "K" else "project"
+        upto = loop[:d + 1] if R != "K" else loop       # the source rank is matched to the loop rank J
+        header = [r + "_pos" for r in upto] + upto + ["fiber_pos"]
+        rows, want = base[(R, tt)], exp[(R, tt)]
+        mon.count("files_checked")
+        if not rows:
+            mon.check(not want, f"{kind}:missing-rows", f"inner-loop projection: trace {R}/{tt} is empty but {len(want)} traced accesses happened; {case}")
+            continue
+        if not mon.check(rows[0] == header, f"{kind}:header", f"inner-loop projection: trace {R}/{tt} header {rows[0]} expected {header}; {case}"):
+            continue
+        if not mon.check(header not in rows[1:], f"{kind}:header-repeated", f"inner-loop projection: trace {R}/{tt} holds its header more than once; {case}"):
+            continue
+        try:
+            data = [[int(x) for x in r] for r in rows[1:]]
+        except ValueError:
+            mon.violation(f"{kind}:row-not-integers", f"inner-loop projection: trace {R}/{tt} rows {rows[1:4]}; {case}")
+            continue
+        nr = len(upto)
+        if not mon.check(all(len(r) == 2 * nr + 1 for r in data), f"{kind}:row-width", f"inner-loop projection: trace {R}/{tt} rows {rows[1:4]}; {case}"):
+            continue
+        got_c = [tuple(r[nr:2 * nr]) for r in data]
+        if mon.check(got_c == [w[0] for w in want], f"{kind}:rows",
+                     f"inner-loop projection: trace {R}/{tt} rows address {got_c[:8]}, traced accesses were {[w[0] for w in want][:8]}; {case}"):
+            mon.count("rows_matched", len(data))
+            if R == "K":
+                mon.count("inner_loop_project_rows", len(data))
+            for r, (c, raw, ordinal) in zip(data, want):
+                if r[-1] != raw:
+                    key = f"{kind}:position-counts-nonempty-elements-only" if r[-1] == ordinal else f"{kind}:position"
+                    mon.violation(key, f"inner-loop projection: trace {R}/{tt} row for element {c}: fiber_pos {r[-1]}, index in the fiber {raw}; {case}")
+                    break
+        st = [tuple(r[:nr]) for r in data]
+        mon.check(all((a < b) if tt == "iter" else (a <= b) for a, b in zip(st, st[1:])), f"{kind}:stamp-order",
+                  f"inner-loop projection: stamps of trace {R}/{tt} not ordered: {st[:10]}; {case}")
+        if len(data) >= 2:
+            big += 1
+    for (ncu, form, drain), v in out.items():
+        mon.count("flush_variants_compared")
+        key = ("flush:threshold-changes-content" if form == "file" else "flush:consumable-differs" if drain == "end" else "consume-piecewise:changes-content")
+        bad = [k for k in keys if (v[k] or []) != (base[k] or [])]
+        mon.check(not bad, key, f"inner-loop projection: traces {bad} differ with num_cached_uses={ncu} form={form} consumed={drain} "
+                                f"({[len(v[k] or []) for k in bad]} rows vs {[len(base[k] or []) for k in bad]}); {case}")
+    if big >= 2:
+        mon.nontrivial()
+    mon.state(("project2", len(ext), bool(iv), len(exp[("K", "project_0")])))
 
 
 def _run_tuple(case, mon, prefix):
